@@ -57,6 +57,21 @@ Nested == {VArr(<<VArr(<<>>)>>), VArr(<<VObj(<<>>)>>), VObj(<<E(<<97>>, VArr(<<>
 
 AllValues == Scalars \cup Small \cup Nested
 
+\* String families: EVERY string of at most StrLen characters over one representative per escaping class
+\* (plain ASCII, 2/3/4-byte raw characters, short-escaped and \u00xx-escaped controls, quote, backslash, DEL),
+\* as a root value, as an array item and as key + value of an entry; and long strings with one special
+\* character after n plain ones (buffer / run boundaries of the string writer)
+StrAlphabet == {97, 233, 8364, 128512, 10, 1, 31, 34, 92, 127}
+StrLen == 3
+StrsUpTo(n) == UNION {[1..m -> StrAlphabet] : m \in 0..n}
+StringFamily == UNION {{S(x), VArr(<<S(x), S(x)>>), VObj(<<E(x, S(x))>>)} : x \in StrsUpTo(StrLen)}
+PadOf(c, n) == [i \in 1..n |-> c]
+PadMax == 140
+PadStrings == UNION {{S(PadOf(97, n) \o <<c>>), S(PadOf(97, n) \o <<c, 98>>), VObj(<<E(PadOf(97, n) \o <<c>>, VNull)>>)} :
+                        n \in 0..PadMax, c \in {1, 10, 34, 233, 128512}}
+StringValues == StringFamily \cup PadStrings
+StringOptions == {Compact, Pretty}
+
 Limits == {<<"none">>, <<"always">>, <<"item", 0>>, <<"item", 1>>, <<"item", 2>>}
           \cup {<<"width", w>> : w \in {0, 2, 3, 4, 5, 6, 7, 8, 9, 10, 12, 16}}
           \cup {<<"iow", 1, 16>>, <<"iow", 2, 8>>, <<"iow", 0, 100>>, <<"iow", 5, 5>>}
